@@ -80,8 +80,16 @@ type PgWorld struct {
 	chunkMod int // 0: whole, 1: small chunks, 2: byte by byte
 	maxSteps int
 	mysql    bool
+	ksWorld  *kernel.World
 	// WriteYield: the proxy's writes become scheduling points (see stream.yield)
 	WriteYield bool
+}
+
+const keyFaultOp = 7777
+
+// KeyFaultFired tells whether the armed key store fault was injected.
+func (pw *PgWorld) KeyFaultFired() bool {
+	return pw.ksWorld != nil && pw.ksWorld.Res.Fired[kernel.FErr] > 0
 }
 
 // PgWorldConfig configures NewPgWorld.
@@ -92,6 +100,8 @@ type PgWorldConfig struct {
 	ChunkMode   int
 	PoisonCalls base.Callback
 	KeyFaults   bool
+	// KeyFaultNth > 0: the Nth storage call of the key store after the world is set up fails with an I/O error
+	KeyFaultNth int
 	// MySQL: the deployment is AcraServer in MySQL mode in front of the simulated MySQL server.
 	MySQL          bool
 	MyDeprecateEOF bool
@@ -149,8 +159,14 @@ func NewPgWorld(w *kernel.World, rng *kernel.RNG, cfg PgWorldConfig) (*PgWorld, 
 		pw.DB.MySQL, pw.DB.MyDeprecateEOF = true, cfg.MyDeprecateEOF
 	}
 	pw.Disk = ksw.NewDisk(1, rng)
-	scratch := kernel.NewWorld(&kernel.Plan{}, false)
+	ksPlan := &kernel.Plan{}
+	if cfg.KeyFaultNth > 0 {
+		// armed by BeginOp(keyFaultOp) once the world is set up
+		ksPlan.Faults = []kernel.Fault{{OpID: keyFaultOp, Site: "fs.", Nth: cfg.KeyFaultNth, Kind: kernel.FErr, Arg: 5}}
+	}
+	scratch := kernel.NewWorld(ksPlan, false)
 	scratch.MaxSteps = 1 << 60
+	pw.ksWorld = scratch
 	h, err := ksw.Open(scratch, 0, pw.Disk, 0)
 	if err != nil {
 		return nil, err
@@ -203,9 +219,13 @@ func NewPgWorld(w *kernel.World, rng *kernel.RNG, cfg PgWorldConfig) (*PgWorld, 
 	setting := base.NewProxySetting(sqlparser.New(parserMode), schema, h.KS, nil, censor, pw.Poison)
 	if cfg.MySQL {
 		pw.Factory, err = acramysql.NewProxyFactory(setting, h.KS, tokenizer)
-		return pw, err
+	} else {
+		pw.Factory, err = postgresql.NewProxyFactory(setting, h.KS, tokenizer)
 	}
-	pw.Factory, err = postgresql.NewProxyFactory(setting, h.KS, tokenizer)
+	if cfg.KeyFaultNth > 0 {
+		h.Reset() // keys are read from storage again
+		scratch.BeginOp(0, kernel.Op{ID: keyFaultOp})
+	}
 	return pw, err
 }
 
